@@ -2,6 +2,9 @@
 from vx.unit import Unit
 from vx.extract import Config
 from vx import nra
+from vx.run import load_spec
+
+C12 = load_spec("C12")      # divide() at the complex instantiation: the deflation contract that roots() relies on is proved there
 
 PFILE = "src/polynomial/mod.rs"
 
@@ -173,7 +176,7 @@ def units(ctx):
     g.hint("after: let divisor =", "proof { assert(divisor.coefficients@.len() == 2 && divisor.lead() == (1real, 0real)); }")
     g.loop(2, iter="it", invariant=["complex.wf()", "self.coefficients@.len() >= 4", "roots@.len() == self.coefficients@.len() - 1", "cs(complex) == cs(*self)",
                                      "forall|i: int| 0 <= i < corrected_roots@.len() ==> newton_result(cs(*self), #[trigger] corrected_roots@[i]@, tol@)", "corrected_roots@.len() == it.index@", "forall|k: int| 0 <= k < it.history@.len() ==> *it.history@[k] == roots@[k]"])
-    return [u, real_unit()]
+    return [u, real_unit(), C12.complex_unit("C14")]
 
 
 def cfg_real():
@@ -288,8 +291,8 @@ NOT_DECIDED = [
 ASSUMPTIONS = [
     "prelude/cx.rs: complex numbers are exact pairs of reals; division and sqrt are specified by what they invert (trusted axioms axiom_cdiv, axiom_csqrt, axiom_cabs); a division's divisor must be non-zero (obligation at each call site)",
     "callee contracts restated, not re-proved here: evaluate (Horner value), derivative, evaluate_derivative, from_slice (verified at N = real in C13), newton_polynomial (C08)",
-    "ASSUMED and not proved anywhere: divide() by a monic linear factor returns a quotient one shorter with the same leading coefficient and tolerance when the dividend's leading coefficient is not purged "
-    "(precondition lead_kept: the property's 'non-negligible leading coefficient')",
+    "divide() by a monic linear factor returns a quotient one shorter with the same leading coefficient and tolerance when the dividend's leading coefficient is not purged "
+    "(precondition lead_kept: the property's 'non-negligible leading coefficient'): restated in units roots / roots_real, PROVED in unit divide_complex (the C12 unit, re-run here)",
     "VecDeque::from(Vec) shim (same elements); `polynomial![a, b]` expanded as its macro definition (R18)",
     "NRA side lemmas lemma_quad_plus / lemma_quad_minus discharged by z3 and cvc5, used as external_body proof fns",
 ]
